@@ -111,3 +111,12 @@ type CallFn func(params json.RawMessage) (any, error)
 var calls = map[string]CallFn{}
 
 func RegisterCall(name string, fn CallFn) { calls[name] = fn }
+
+// Call runs a registered batch function in-process.
+func Call(name string, raw json.RawMessage) (any, error) {
+	fn, ok := calls[name]
+	if !ok {
+		return nil, fmt.Errorf("unknown call %q", name)
+	}
+	return fn(raw)
+}
